@@ -37,7 +37,8 @@ RtExtras == {"0", "2.5", "0.00", "9.990"}
 RtCurs == {"GBP", "USD", "JPY", "BHD"}
 RtTxSet ==
   {[ok |-> TRUE, date |-> d, cmd |-> c, ticker |-> t, f |-> [qty |-> q, amount |-> a, cur |-> cu, extra |-> e, xcur |-> xc]] :
-     d \in {"2024-02-29", "0001-01-01", "9999-12-31"}, c \in {"BUY", "SELL", "ACCUMULATION", "CAPRETURN"}, t \in {"AAA", "SELL", "X9"},
+     \* (30 December 2024 and 1 January 2021 belong to ISO weeks of the neighbouring year)
+     d \in {"2024-02-29", "0001-01-01", "9999-12-31", "2024-12-30", "2021-01-01"}, c \in {"BUY", "SELL", "ACCUMULATION", "CAPRETURN"}, t \in {"AAA", "SELL", "X9"},
      q \in RtQtys, a \in RtAmts, cu \in RtCurs, e \in RtExtras, xc \in {"GBP", "JPY"}}
   \cup
   {[ok |-> TRUE, date |-> d, cmd |-> "DIVIDEND", ticker |-> t, f |-> [qty |-> "", amount |-> a, cur |-> cu, extra |-> e, xcur |-> xc]] :
